@@ -384,6 +384,9 @@ pub fn run(args: &Args) -> (Meta, Stats) {
                     let mut input = if rng.chance(1, 3) { gen::simd_run(&mut rng) } else { gen::tok_soup(&mut rng, 8) };
                     if rng.chance(1, 10) {
                         input.insert(0, '\u{feff}');
+                    } else if rng.chance(1, 12) {
+                        // not a BOM: characters that only look like U+FEFF after a truncating cast or a byte swap
+                        input.insert(0, *rng.pick(&['\u{1feff}', '\u{2feff}', '\u{10feff}', '\u{fffe}', '\u{fe}', '\u{ff}', '\u{feff0}', '\u{fefe}']));
                     }
                     let n = input.chars().count();
                     let cuts = random_schedule(&mut rng, n);
@@ -406,8 +409,15 @@ pub fn run(args: &Args) -> (Meta, Stats) {
                 },
                 _ => {
                     let (mut input, opts) = random_html_case(&mut rng, &contexts, &[], false);
+                    if rng.chance(1, 40) {
+                        // scaled-up input: error messages, text runs and token renderings beyond any internal cap
+                        input = crate::big::big_html(&mut rng);
+                        st.count("scaled_up_tree_cases");
+                    }
                     if rng.chance(1, 10) {
                         input.insert(0, '\u{feff}');
+                    } else if rng.chance(1, 12) {
+                        input.insert(0, *rng.pick(&['\u{1feff}', '\u{2feff}', '\u{10feff}', '\u{fffe}', '\u{fe}', '\u{ff}']));
                     }
                     if rng.chance(1, 6) {
                         input.insert_str(0, rng.pick_s(gen::QUIRKS_DOCTYPES));
